@@ -2,7 +2,7 @@
 import btree_common as bc
 
 def run(ck):
-    ck.level = "translation_validation"
+    ck.level = "proof"
     ck.cov["rule"] = ("histories as for C01 on the small-page builds (heights 2..6), with after every few operations a sweep: lower_bound for every key in, between, "
                       "below and above the stored keys with the exact comparator, and for every prefix with a wildcard comparator (v/16), iterator equality of "
                       "pairs of positions, a full begin..end walk; every remove reports its `next`; compared: the element each iterator dereferences to (API) and its "
